@@ -205,7 +205,7 @@ func runC02(src sim.Source, o Opts) *Result {
 		cfg.MaxKeyBytes = sim.Pick(src, "maxkeybytes", []int{0, 2, 3, 4})
 	}
 	pc := world.PoolCfg{Size: 3 + src.Intn("poolsize", 10), MaxSegs: 1 + src.Intn("maxsegs", 5), Hosts: src.Intn("hosts", 3) == 2,
-		WildHeavy: sim.Bool(src, "wildheavy"), TSlash: src.Intn("tslash", 4), Fanout: src.Intn("fanout", 12) == 11, Deep: src.Intn("deep", 12) == 11, Odd: src.Intn("oddbytes", 5) == 4, Ladder: src.Intn("ladder", 10) == 9}
+		WildHeavy: sim.Bool(src, "wildheavy"), TSlash: src.Intn("tslash", 4), Fanout: src.Intn("fanout", 12) == 11, Deep: src.Intn("deep", 12) == 11, Odd: src.Intn("oddbytes", 5) == 4, Ladder: src.Intn("ladder", 10) == 9, Siblings: src.Intn("siblings", 6) == 5}
 	pool := world.GenPool(src, pc)
 	if len(pool) == 0 {
 		return res
